@@ -54,6 +54,10 @@ func (s Signature) Leaf() *x509.Certificate {
 
 // Extract and verify an enveloped signature at the given root
 func Verify(root *etree.Element, sigpath string, extraCerts []*x509.Certificate) (*Signature, error) {
+	if root == nil {
+		// empty document
+		return nil, sigerrors.NotSignedError{Type: "xmldsig"}
+	}
 	root = root.Copy()
 	sigs := root.FindElements(sigpath)
 	if len(sigs) == 0 {
@@ -150,7 +154,12 @@ func Verify(root *etree.Element, sigpath string, extraCerts []*x509.Certificate)
 			(sig.Reference.Transforms[1].Algorithm != AlgXMLExcC14n && sig.Reference.Transforms[1].Algorithm != AlgXMLExcC14nRec) {
 			return nil, errors.New("xmldsig: unsupported reference transform")
 		}
-		sigEl.Parent().RemoveChild(sigEl)
+		parent := sigEl.Parent()
+		if parent == nil {
+			// the signature is the whole document so there is nothing it could be enveloped in
+			return nil, errors.New("xmldsig: unable to locate reference")
+		}
+		parent.RemoveChild(sigEl)
 		reference = root
 	} else {
 		// enveloping signature
